@@ -83,3 +83,15 @@
 //@endfn
 }
 
+
+// The trait impl itself (the method above is the real `clone`, re-homed so that its body is verified): present so that code
+// which copies individuals through `Clone` (`.cloned()`, `.to_vec()`, `Vec::clone`) typechecks and is decided against the contracts.
+impl<P: Problem> Clone for Individual<P> {
+    #[verifier::external_body]
+    fn clone(&self) -> (r: Self)
+        ensures
+            cloned(self.solution, r.solution),
+            self.objective is Some <==> r.objective is Some,
+            self.objective is Some ==> cloned(self.objective->0, r.objective->0),
+    { unimplemented!() }
+}
